@@ -1,8 +1,9 @@
 use self::world::*;
-fn walk(min: u32, max: u32, mode: TraversalMode, limit: u32, buffered: bool) -> Searcher {
+fn walk(min: u32, max: u32, mode: TraversalMode, limit: u32, buffered: bool) -> Searcher { walk_a(min, max, mode, limit, buffered, false) }
+fn walk_a(min: u32, max: u32, mode: TraversalMode, limit: u32, buffered: bool, archives: bool) -> Searcher {
     let mut s = Searcher { query: Query { limit }, found: 0, buffered, current_follow_symlinks: false, visited_dirs: Set { seen: [false; N] }, visited_entries: [false; N],
                            dir_queue: Queue { items: [0; N], head: 0, tail: 0 }, error_count: 0, hgignore_filters: Filters, dockerignore_filters: Filters, log: [0; 8], n: 0 };
-    let r = s.visit_dir(&Path(0), min, max, 0, false, false, None, false, false, mode, true);
+    let r = s.visit_dir(&Path(0), min, max, 0, archives, false, None, false, false, mode, true);
     assert!(r.is_ok(), "OBL C01.walk: no error");
     s
 }
@@ -80,6 +81,22 @@ fn c06_walk_limit_buffered() {
     kani::assume(limit <= 6);
     kani::cover!(limit == 1);
     limit_check(limit, false, true);
+}
+// with `archives` the members of a zip file are rows of their own (right after the archive) and count towards the limit: a limit reached in the middle
+// of an archive stops there
+#[kani::proof]
+#[kani::unwind(9)]
+fn c06_walk_limit_archive() {
+    let limit: u32 = kani::any();
+    kani::assume(limit <= 8);
+    kani::cover!(limit == 3);
+    kani::cover!(limit == 0);
+    let s = walk_a(0, 0, TraversalMode::Bfs, limit, false, true);
+    let full: [u8; 7] = [1, 2, 12, 22, 3, 4, 5];
+    let expect = if limit == 0 || limit > 7 { 7 } else { limit as usize };
+    assert!(s.n == expect, "OBL C06.walk.limit.archive: exactly min(L, M) rows, archive members included");
+    let mut i = 0;
+    while i < s.n { assert!(s.log[i] == full[i], "OBL C06.walk.limit.archive: a limited traversal is a prefix of the unlimited one"); i += 1; }
 }
 #[kani::proof]
 #[kani::unwind(9)]
